@@ -186,3 +186,26 @@ def inline_call(call, repo, module):
     ast.copy_location(out, call)
     ast.fix_missing_locations(out)
     return out
+
+
+def before(fn, a, b, strict=True):
+    """node a comes before node b in program order of function fn (depth-first position in the tree).  Line numbers are
+    not used: code inlined at load time keeps the line of its call site."""
+    num = getattr(fn, '_dfs_order', None)
+    if num is None or num.get('__n') != sum(1 for _ in ast.walk(fn)):
+        num = {}
+
+        def dfs(n):
+            num[id(n)] = len(num)
+            for c in ast.iter_child_nodes(n):
+                dfs(c)
+        dfs(fn)
+        num['__n'] = len(num)
+        try:
+            fn._dfs_order = num
+        except AttributeError:
+            pass
+    x, y = num.get(id(a)), num.get(id(b))
+    if x is None or y is None:
+        return (getattr(a, 'lineno', 0) < getattr(b, 'lineno', 0)) if strict else (getattr(a, 'lineno', 0) <= getattr(b, 'lineno', 0))
+    return x < y if strict else x <= y
